@@ -74,7 +74,7 @@ theorem abs_init (h : Drains (d + 1) fs st0 (evItems xs0) fin0) (hne : st0 ≠ [
       { buf := [], rest := absItems dir 0 xs0, pulled := 0, eof := false } := by
   obtain ⟨r, hr⟩ := innermost_isSome st0 hne
   refine ⟨[], st0, r, rfl, hr, (fun p hp => by cases hp), rfl, by simp, by simpa using h,
-    (fun _ => by simp [getN]), (fun he => by cases he)⟩
+    (fun _ => by simp [getN]), (fun he => by cases he), Nat.zero_le _⟩
 
 /-! ### one step -/
 
@@ -99,7 +99,7 @@ theorem cget_none {rd : List Rd} (h : ∀ x, (getItem (d + 1) fs rd).1 ≠ .ok x
 theorem abs_get {rd : List Rd} {s : Block.Stream} (h : Abs dir d fs st0 xs0 fin0 rd s) :
     Abs dir d fs st0 xs0 fin0 (cget d fs rd).2 s.get.2 ∧
     GetRel dir xs0 (cget d fs rd).1 s.get.1 := by
-  obtain ⟨bx, hw, r, hrd, hi, hb, hbuf, hrest, hdr, he0, he1⟩ := h
+  obtain ⟨bx, hw, r, hrd, hi, hb, hbuf, hrest, hdr, he0, he1, hle⟩ := h
   cases bx with
   | cons p bx' =>
     obtain ⟨i, x⟩ := p
@@ -119,7 +119,7 @@ theorem abs_get {rd : List Rd} {s : Block.Stream} (h : Abs dir d fs st0 xs0 fin0
       unfold Block.Stream.get
       rw [hbuf]; rfl
     rw [cget_ok hg, hsg]
-    exact ⟨⟨bx', hw, r, rfl, hi, hb', rfl, hrest, hdr, he0, he1⟩, rfl, hx.2⟩
+    exact ⟨⟨bx', hw, r, rfl, hi, hb', rfl, hrest, hdr, he0, he1, hle⟩, rfl, hx.2⟩
   | nil =>
     simp only [List.map_nil, putMany] at hrd hbuf
     subst hrd
@@ -137,7 +137,7 @@ theorem abs_get {rd : List Rd} {s : Block.Stream} (h : Abs dir d fs st0 xs0 fin0
         rw [hg] at this; exact this
       obtain ⟨r', hi'⟩ := innermost_isSome rd' hne'
       rw [cget_ok hg, hsg]
-      refine ⟨⟨[], rd', r', rfl, hi', (fun p hp => by cases hp), hbuf, ?_, ?_, ?_, ?_⟩, rfl, hy⟩
+      refine ⟨⟨[], rd', r', rfl, hi', (fun p hp => by cases hp), hbuf, ?_, ?_, ?_, ?_, ?_⟩, rfl, hy⟩
       · simp only [hdrop]
       · simp only [hdrop]; exact hdr'
       · intro he
@@ -147,6 +147,10 @@ theorem abs_get {rd : List Rd} {s : Block.Stream} (h : Abs dir d fs st0 xs0 fin0
         have := (he1 he).1
         have hl : (xs0.drop s.pulled).length = 0 := by simp; omega
         rw [hys] at hl; simp at hl
+      · have hl : (xs0.drop s.pulled).length ≠ 0 := by rw [hys]; simp
+        simp only [List.length_drop] at hl
+        show s.pulled + 1 ≤ xs0.length
+        omega
     | nil =>
       rw [hys] at hdr hrest
       obtain ⟨hfin, hex, hnok⟩ := Drains_inv_nil (by simpa [evItems] using hdr)
@@ -158,7 +162,7 @@ theorem abs_get {rd : List Rd} {s : Block.Stream} (h : Abs dir d fs st0 xs0 fin0
         rw [hfin] at this; exact this
       obtain ⟨r', hi'⟩ := innermost_isSome fin0 hne'
       rw [cget_none hnok, hsg, hfin]
-      refine ⟨⟨[], fin0, r', rfl, hi', (fun p hp => by cases hp), hbuf, ?_, ?_, ?_, ?_⟩, trivial⟩
+      refine ⟨⟨[], fin0, r', rfl, hi', (fun p hp => by cases hp), hbuf, ?_, ?_, ?_, ?_, hle⟩, trivial⟩
       · simp only [hys]; exact hrest
       · simp only [hys]; exact Drains_exhausted d fs fin0 hex
       · intro he; cases he
@@ -171,7 +175,7 @@ theorem abs_put {rd : List Rd} {s : Block.Stream} (h : Abs dir d fs st0 xs0 fin0
     (r1 : Rd) (x : Item) (i : Nat) (hi1 : innermost rd = some r1) (hr : returnable fs r1 x = true)
     (hx : xs0[i]? = some x) :
     Abs dir d fs st0 xs0 fin0 (putItem x rd) (s.put (absItem dir i x)) := by
-  obtain ⟨bx, hw, r, hrd, hi, hb, hbuf, hrest, hdr, he0, he1⟩ := h
+  obtain ⟨bx, hw, r, hrd, hi, hb, hbuf, hrest, hdr, he0, he1, hle⟩ := h
   obtain ⟨r', hi', hq, _⟩ := Drains_putMany d fs r (bx.map Prod.snd) hw _ fin0 hi
     (fun y hy => by
       obtain ⟨p, hp, rfl⟩ := List.mem_map.mp hy
@@ -179,7 +183,7 @@ theorem abs_put {rd : List Rd} {s : Block.Stream} (h : Abs dir d fs st0 xs0 fin0
   have hrr : r' = r1 := by
     rw [← hrd, hi1] at hi'; exact (Option.some.inj hi').symm
   refine ⟨(i, x) :: bx, hw, r, by simp [putMany, hrd], hi, ?_, by simp [Block.Stream.put, hbuf],
-    hrest, hdr, he0, he1⟩
+    hrest, hdr, he0, he1, hle⟩
   intro p hp
   rcases List.mem_cons.mp hp with rfl | hp
   · exact ⟨by rw [← hq, hrr]; exact hr, hx⟩
@@ -209,7 +213,7 @@ theorem Sim.abs {rd rd' : List Rd} {s s' : Block.Stream} (hs : Sim dir d fs xs0 
 theorem abs_future {rd : List Rd} {s : Block.Stream} (h : Abs dir d fs st0 xs0 fin0 rd s) :
     ∃ fut, Drains (d + 1) fs rd (evItems fut) fin0 ∧ s.all.map (decode xs0) = fut.map some ∧
       s.all.length = fut.length := by
-  obtain ⟨bx, hw, r, hrd, hi, hb, hbuf, hrest, hdr, he0, he1⟩ := h
+  obtain ⟨bx, hw, r, hrd, hi, hb, hbuf, hrest, hdr, he0, he1, hle⟩ := h
   obtain ⟨_, _, _, hd⟩ := Drains_putMany d fs r (bx.map Prod.snd) hw _ fin0 hi
     (fun y hy => by
       obtain ⟨p, hp, rfl⟩ := List.mem_map.mp hy
